@@ -17,6 +17,7 @@ define_language! {
         Lam(Bind<AppliedId>) = "lam",
         K(Slot, Slot) = "k",
         U(AppliedId) = "u",
+        J(Slot, Slot) = "j",
     }
 }
 
@@ -59,7 +60,7 @@ pub struct Weighted;
 impl CostFunction<Lb> for Weighted {
     type Cost = u64;
     fn cost<C>(&self, enode: &Lb, costs: C) -> u64 where C: Fn(Id) -> u64 {
-        let w: u64 = match enode { Lb::Var(_) => 1, Lb::App(..) => 3, Lb::Lam(_) => 2, Lb::K(..) => 5, Lb::U(_) => 1 };
+        let w: u64 = match enode { Lb::Var(_) => 1, Lb::App(..) => 3, Lb::Lam(_) => 2, Lb::K(..) => 5, Lb::U(_) => 1, Lb::J(..) => 4 };
         let mut s = w;
         for x in enode.applied_id_occurrences() {
             s = s.saturating_add(costs(x.id));
